@@ -38,7 +38,9 @@ type Case struct {
 var edgeValues = []string{"", "0", "1", "+1", "-0", "-1", "9223372036854775807", "9223372036854775808",
 	"-9223372036854775808", "-9223372036854775809", "18446744073709551615", "18446744073709551616",
 	"1e400", "-1e400", "NaN", "nan", "Inf", "-inf", "0x10", "0b1", "1_000", "t", "T", "TRUE", "true", "True", "f", "false",
-	" 1", "1 ", "1.5", ".5", "1e3", "١", "１", "1e-400", "0.1", "-", "+"}
+	" 1", "1 ", "1.5", ".5", "1e3", "١", "１", "1e-400", "0.1", "-", "+",
+	// every spelling strconv knows for the special floats, and hex floats
+	"Infinity", "infinity", "INFINITY", "+Infinity", "-Infinity", "iNf", "+inf", "infinit", "0x1p-2", "0X1.8P1", "1_0", "0x_1p0"}
 
 var keyPool = []string{"", "a", "b", "id", "x", "-x", "k1", "k2", "k3"}
 
